@@ -32,7 +32,16 @@ def parse_res(text):
     return out
 
 
-def monitor(avail_text, njob):
+def declared_demands(proj):
+    """Resource demands per step label as the project declares them (from the generator's own
+    data, not from what the director stored)."""
+    fam, knobs = proj
+    if fam != "f_resmix":
+        return None
+    return {f"tr R{i} -- r{i}.txt": parse_res(dem) for i, dem in enumerate(knobs["demands"])}
+
+
+def monitor(avail_text, njob, declared=None):
     avail = parse_res(avail_text)
 
     def on_start(sim, proc):
@@ -43,9 +52,12 @@ def monitor(avail_text, njob):
                                 [p.label for p in running]))
         used = {}
         for p in running:
-            rows = con.execute(
-                "SELECT name, units FROM step_resource JOIN node ON node.i = step_resource.node "
-                "WHERE node.kind = 'step' AND node.label = ?", (p.label,)).fetchall()
+            if declared is not None and p.label in declared:
+                rows = list(declared[p.label].items())
+            else:
+                rows = con.execute(
+                    "SELECT name, units FROM step_resource JOIN node ON node.i = step_resource.node "
+                    "WHERE node.kind = 'step' AND node.label = ?", (p.label,)).fetchall()
             for name, units in rows:
                 used[name] = used.get(name, 0) + units
                 if name not in avail and p is proc:
@@ -103,6 +115,10 @@ def project_list(tier):
         out.append((f"lostout:undef:j{nj}", ("f_resmix", {"demands": ("q:1", "cpu:1")}),
                     {"njob": nj, "resources": "cpu:1"}, ("f_resmix", {"demands": ("q:1", "cpu:1")}),
                     "outputs", {"resources": "cpu:1,q:1"}))
+        # the same steps re-declared with more units of the same resource, outputs lost
+        out.append((f"lostout:moreunits:j{nj}", ("f_resmix", {"demands": ("cpu:2", "cpu:2", "cpu:1")}),
+                    {"njob": nj, "resources": "cpu:2"}, ("f_resmix", {"demands": ("cpu:1", "cpu:1", "cpu:1")}),
+                    "outputs"))
         out.append((f"lostout:hold:j{nj}", ("f_hold", {"nesting": 2, "v": 2}),
                     {"njob": nj, "resources": None}, ("f_hold", {"nesting": 2, "v": 1}), "outputs"))
     # the plan died inside its hold block in the first build (the steps declared there are detached,
@@ -123,12 +139,12 @@ def _run(spec, prefix):
     name, proj, cfg, first = spec["name"], spec["proj"], dict(spec["cfg"]), spec["first"]
     fam, knobs = first or proj
     w = fresh_world(getattr(projects, fam)(**knobs))
-    cfg["on_start"] = monitor(cfg.get("resources"), cfg["njob"])
+    cfg["on_start"] = monitor(cfg.get("resources"), cfg["njob"], declared_demands(proj))
     cfg["exit_gate"] = True
     if first:
         cfg1 = dict(cfg)
         cfg1.update(spec.get("first_cfg") or {})
-        cfg1["on_start"] = monitor(cfg1.get("resources"), cfg1["njob"])
+        cfg1["on_start"] = monitor(cfg1.get("resources"), cfg1["njob"], declared_demands(first))
         o1 = session(w, cfg1, ())
         fam, knobs = proj
         w.materialize(getattr(projects, fam)(**knobs))
